@@ -175,7 +175,7 @@ func (w *Worker) compareToRef(out *CLIOutcome, wl *Workload, visits []simapi.Vis
 func (w *Worker) runC03(rc *simapi.RunConfig) *simapi.RunResult {
 	res := &simapi.RunResult{Stats: map[string]int64{}, Probes: map[string]int64{}}
 	wl := w.parseWorkload(rc.Args)
-	ref, panics := w.refForVisits(wl, rc.Visits)
+	ref, panics := w.refForVisits(wl, rc.Visits, true)
 	if len(panics) > 0 {
 		res.Verdict = "skip"
 		res.Notes = append(res.Notes, "reference panics (C01 territory, not judged): "+joinShort(panics, 3))
@@ -205,6 +205,7 @@ func (w *Worker) runC03(rc *simapi.RunConfig) *simapi.RunResult {
 	res.Stats["checkers"] = int64(len(out.Checkers))
 	res.DecisionID = hashStrings(strings.Join(rc.Args, " "), fmt.Sprint(rc.Visits), fmt.Sprint(out.Sched.Hash, out.Map.Hash))
 	res.Digest = hashStrings(strings.Join(recordsText(out), ""), fmt.Sprint(out.Sched.Hash, out.Map.Hash, out.Sched.Steps))
+	res.DigestParts = []string{"records=" + hashStrings(strings.Join(recordsText(out), "")), fmt.Sprintf("n_records=%d handover_hash=%x map_hash=%x steps=%d", len(out.Records), out.Sched.Hash, out.Map.Hash, out.Sched.Steps)}
 	return res
 }
 
